@@ -61,7 +61,7 @@ func Print returns (err)
   requires @streams logStream != nil
   requires @sink pc.ReporterConfig.Output != nil && !typeis(pc.ReporterConfig.Output, "*bufio.Writer") && !typeis(pc.ReporterConfig.Output, "*encoding/csv.Writer")
   modifies *
-  modifies ghost(cbLen, cbErr, cbNode, cbStop, cbRet, cbLineNo, cbLine, cbHeader, cbElems, cbNElems, scRd, scPos, privLo, evOf, accKey, accP, accN, accH, bufSink, bufSticky, sinkFailed, sinkPend, prLen, prSink, prArg, prArgs, csvLen, csvW, csvN, csvRow, tnodes, tdepth, tmax, tmapOf, jlen, procLen, procTime, procSrc)
+  modifies ghost(cbLen, cbErr, cbNode, cbStop, cbRet, cbLineNo, cbLine, cbHeader, cbElems, cbNElems, scRd, scPos, privLo, evOf, accKey, accP, accN, accH, bufSink, bufSticky, sinkFailed, sinkPend, prLen, prSink, prArg, prArgs, csvLen, csvW, csvN, csvRow, tnodes, tdepth, tmax, tmapOf, jlen, tvLen, tv, tseg, tvSet, procLen, procTime, procSrc)
   let out := payload(pc.ReporterConfig.Output)
   let rd := payload(logStream)
   let cc := pc.ParserConfig.CommentChar
